@@ -35,6 +35,13 @@ not); a panic is still compared as a panic.
   sim_start_file    Gen.ZipWriter.start_file ~ Model.startFile (permission default `0o644`, `| 0o100000`,
                     start_entry, switch to the entry's encoder, `writing_to_file`)
   tie_set_raw_comment / tie_set_comment       the `comment` field, nothing else
+  sim_add_directory                ~ Model.addDirectory   (`0o755` default, `| 0o40000`, method Stored, the trailing
+                                   `/` unless the name ends in `/` or `\\`, `writing_to_file = false`)
+  sim_write_all                    `self.write_all(buf)` (std's loop over `Gen.ZipWriter.write`) ~ Model.writeData buf
+  sim_add_symlink                  ~ Model.addSymlink     (`0o777` default, `| 0o120000`, method Stored, the target
+                                   written as the entry's content between the two `writing_to_file` settings)
+  sim_start_file_with_extra_data   ~ Model.startFileWithExtraData    (both flags, the preliminary data_start)
+  sim_end_local_start_central      ~ Model.endLocalStartCentral      (end_extra_data, clear, central-only mode)
   sim_finish        Gen.ZipWriter.finish   ~ Model.finish
   sim_drop          Gen.ZipWriter.drop     ~ `dropBody` (`Drop::drop` proper; `dropWriter_eq`: the model's
                     `dropWriter` is `dropBody` followed by the field destructors `dropInner`)
@@ -100,6 +107,12 @@ treatment in `Model/Writer.lean` - `Inner`, `EncState`, `WExt`, `switchTo`, `emi
     appends to the buffer (`Rs.S.zc_write`);
   * new-entry hypotheses: `name.len() < 2^64` (a `String`), and the entry's time has a DOS date (year ≥ 1980,
     a type invariant of `DateTime`; the serialiser's panic is excluded as for `finalize`);
+  * `match s.chars().last() { Some('/') | Some('\\') => …, _ => … }` on a `String` is a match on its last BYTE
+    (`Rs.lastByte`): in UTF-8 an ASCII character is the last character exactly when its byte is the last byte;
+    `s + "/"` appends the literal's bytes;
+  * `self.write_all(buf)` is std's default `Write::write_all` over the translated `write` (`Rs.S.write_all`:
+    `Ok(0)` is `WriteZero`, otherwise continue with `&buf[n..]`; `ErrorKind::Interrupted` is never produced by
+    the model's sink; fuel `buf.len() + 1`);
   * `crc32fast::Hasher` is the raw CRC register (`new` = all ones, `update` = `Spec.Crc32.updateBytes`,
     `clone().finalize()` = complement); `Vec::last/last_mut/push/len`, `<Vec<u8> as Write>::write`
     (appends everything).
@@ -1724,6 +1737,14 @@ theorem lhc_run {σ : Type} (file : Gen.ZipFileData) (gm : FileData) (hv : view 
 
 theorem shl16 (x : UInt32) : Rs.Arith.shl x 16 = some (x <<< 16) := rfl
 
+/-- postcondition of `start_entry`: after `Ok(())` there is an open entry and no byte of it is counted yet -/
+syntax "pstart" : tactic
+macro_rules
+  | `(tactic| pstart) => `(tactic| first
+      | (intro h; cases h; done)
+      | (intro _; exact ⟨by simp only [Rs.push, ne_eq, List.append_eq_nil_iff, List.cons_ne_self, and_false,
+            not_false_eq_true, reduceCtorEq], rfl⟩))
+
 theorem sim_start_entry (ext : Rs.S.Ext) (g : Gen.ZipWriter) (name : Bytes) (o : Gen.FileOptions)
     (raw : Option Gen.ZipRawValues)
     (hf : ∀ f, g.files.getLast? = some f →
@@ -1732,7 +1753,8 @@ theorem sim_start_entry (ext : Rs.S.Ext) (g : Gen.ZipWriter) (name : Bytes) (o :
       f.header_start.toNat + 34 + f.file_name.length < 18446744073709551616)
     (hname : name.length < 18446744073709551616)
     (htime : (Tie.DateTime.toModel o.last_modified_time).datepart ≠ none) :
-    Sim absR (fun _ => True) (Rs.S.run (Gen.ZipWriter.start_entry ext g name o raw))
+    Sim absR (fun p => p.1 = .ok () → p.2.files ≠ [] ∧ p.2.stats.bytes_written = 0)
+      (Rs.S.run (Gen.ZipWriter.start_entry ext g name o raw))
       (startEntry ext.toWExt name (optOf o) (raw.map rawOf) (absW g)) := by
   have hnl : (decide (Rs.len name > Rs.as' UInt64 (65535 : UInt16))) = decide (name.length > 65535) := by
     have e : (Rs.as' UInt64 (65535 : UInt16)).toNat = 65535 := by decide
@@ -1742,7 +1764,7 @@ theorem sim_start_entry (ext : Rs.S.Ext) (g : Gen.ZipWriter) (name : Bytes) (o :
   unfold Gen.ZipWriter.start_entry startEntry
   by_cases hnm : name.length > 65535
   · ssimp [hnl, hnm, decide_true]
-    refine Sim.leaf ?_ trivial
+    refine Sim.leaf ?_ (by pstart)
     simp only [absR]
   · ssimp [hnl, hnm, decide_false]
     rw [toM_bind_run (Gen.ZipWriter.finish_file ext g)]
@@ -1752,7 +1774,7 @@ theorem sim_start_entry (ext : Rs.S.Ext) (g : Gen.ZipWriter) (name : Bytes) (o :
     cases r with
     | error e =>
       ssimp [absR]
-      refine Sim.leaf ?_ trivial
+      refine Sim.leaf ?_ (by pstart)
       simp only [absR]
     | ok u =>
       have hia : (absW g2).inner = g2.inner := rfl
@@ -1768,7 +1790,7 @@ theorem sim_start_entry (ext : Rs.S.Ext) (g : Gen.ZipWriter) (name : Bytes) (o :
           cases r with
           | error e =>
             ssimp []
-            refine Sim.leaf ?_ trivial
+            refine Sim.leaf ?_ (by pstart)
             simp only [absR]
           | ok p =>
             by_cases hp64 : p < 18446744073709551616
@@ -1783,7 +1805,7 @@ theorem sim_start_entry (ext : Rs.S.Ext) (g : Gen.ZipWriter) (name : Bytes) (o :
               cases r with
               | error e =>
                 ssimp []
-                refine Sim.leaf ?_ trivial
+                refine Sim.leaf ?_ (by pstart)
                 simp only [absR]
               | ok u3 =>
                 ssimp []
@@ -1791,20 +1813,20 @@ theorem sim_start_entry (ext : Rs.S.Ext) (g : Gen.ZipWriter) (name : Bytes) (o :
                 cases r with
                 | error e =>
                   ssimp []
-                  refine Sim.leaf ?_ trivial
+                  refine Sim.leaf ?_ (by pstart)
                   simp only [absR]
                 | ok q =>
                   by_cases hq64 : q < 18446744073709551616
                   · cases henc : o.encrypt_with with
                     | none =>
                       ssimp [hq64, henc]
-                      refine Sim.leaf ?_ trivial
+                      refine Sim.leaf ?_ (by pstart)
                       cases raw <;>
                         simp only [absR, absW, Rs.push, List.map_append, List.map_cons, List.map_nil, dataOf,
                           ofNat_toNat_lt _ hq64, Option.getD, Option.map, rawOf, Rs.Hasher.new, henc] <;> rfl
                     | some pw =>
                       ssimp [hq64, henc, Rs.S.unwrap_sink, Rs.S.get_plain]
-                      refine Sim.leaf ?_ trivial
+                      refine Sim.leaf ?_ (by pstart)
                       cases raw <;>
                         simp only [absR, absW, Rs.push, List.map_append, List.map_cons, List.map_nil, dataOf,
                           ofNat_toNat_lt _ hq64, Option.getD, Option.map, rawOf, Rs.Hasher.new, henc, Rs.S.zc_write,
@@ -1888,6 +1910,356 @@ theorem tie_set_comment (ext : Rs.S.Ext) (g : Gen.ZipWriter) (c : Bytes) :
     Rs.S.run (Gen.ZipWriter.set_comment ext g c) = pure (.ok (), { g with comment := c }) := by
   unfold Gen.ZipWriter.set_comment Gen.ZipWriter.set_raw_comment
   ssimp []
+
+
+/-! ### `start_file_with_extra_data`, `end_local_start_central_extra_data` -/
+
+theorem sim_start_file_with_extra_data (ext : Rs.S.Ext) (g : Gen.ZipWriter) (name : Bytes) (o : Gen.FileOptions)
+    (hf : ∀ f, g.files.getLast? = some f →
+      f.extra_field.length ≤ 9223372036854775807 ∧
+      f.data_start.toNat + f.extra_field.length < 18446744073709551616 ∧
+      f.header_start.toNat + 34 + f.file_name.length < 18446744073709551616)
+    (hname : name.length < 18446744073709551616)
+    (htime : (Tie.DateTime.toModel o.last_modified_time).datepart ≠ none) :
+    Sim absRn (fun _ => True) (Rs.S.run (Gen.ZipWriter.start_file_with_extra_data ext g name o))
+      (startFileWithExtraData ext.toWExt name (optOf o) (absW g)) := by
+  unfold Gen.ZipWriter.start_file_with_extra_data
+  have key : ∀ (o' : Gen.FileOptions), o'.last_modified_time = o.last_modified_time →
+      optOf o' = withFilePerm (optOf o) 0o644 0o100000 →
+      Sim absRn (fun _ => True)
+        (Rs.S.run (do
+          let (t2, t3) ← Gen.ZipWriter.start_entry ext g name o' none
+          let t4 ← Rs.S.lift (Rs.last t3.files) { t3 with writing_to_file := true, writing_to_extra_field := true }
+          pure (t4.data_start, { t3 with writing_to_file := true, writing_to_extra_field := true })))
+        (startFileWithExtraData ext.toWExt name (optOf o) (absW g)) := by
+    intro o' ht ho
+    unfold startFileWithExtraData
+    rw [← ho]
+    ssimp []
+    rw [toM_bind_run (Gen.ZipWriter.start_entry ext g name o' none)]
+    refine Sim.bind (sim_start_entry ext g name o' none hf hname (by rw [ht]; exact htime)) ?_
+    intro p _
+    obtain ⟨r, g2⟩ := p
+    cases r with
+    | error e =>
+      ssimp [absR]
+      refine Sim.leaf ?_ trivial
+      simp only [absRn, Except.map]
+    | ok u =>
+      have hfl : (absW g2).files = g2.files.map dataOf := rfl
+      cases hl : g2.files.getLast? with
+      | none =>
+        ssimp [absR, hfl, Rs.last, hl, getLastOpt_map, Option.map_none]
+        exact Sim.panic _ _
+      | some f =>
+        ssimp [absR, hfl, Rs.last, hl, getLastOpt_map, Option.map_some]
+        refine Sim.leaf ?_ trivial
+        simp only [absRn, absW, Except.map, dataOf]
+  cases hp : o.permissions with
+  | none =>
+    have := key { o with permissions := some (0o644 ||| 0o100000) } rfl (by simp only [optOf, withFilePerm, hp, Option.getD])
+    simpa only [hp, Option.isNone, ↓reduceIte, S.lift_some_bind] using this
+  | some perm =>
+    have := key { o with permissions := some (perm ||| 0o100000) } rfl (by simp only [optOf, withFilePerm, hp, Option.getD])
+    simpa only [hp, Option.isNone, ↓reduceIte, S.lift_some_bind, Bool.false_eq_true] using this
+
+theorem sim_end_local_start_central (ext : Rs.S.Ext) (g : Gen.ZipWriter)
+    (hf : ∀ f, g.files.getLast? = some f →
+      f.extra_field.length ≤ 9223372036854775807 ∧
+      f.data_start.toNat + f.extra_field.length < 18446744073709551616 ∧
+      f.header_start.toNat + 28 < 18446744073709551616) :
+    Sim absRn (fun _ => True) (Rs.S.run (Gen.ZipWriter.end_local_start_central_extra_data ext g))
+      (endLocalStartCentral ext.toWExt (absW g)) := by
+  unfold Gen.ZipWriter.end_local_start_central_extra_data endLocalStartCentral
+  ssimp []
+  rw [toM_bind_run (Gen.ZipWriter.end_extra_data ext g)]
+  refine Sim.bind (sim_end_extra_data ext g hf) ?_
+  intro p _
+  obtain ⟨r, g2⟩ := p
+  cases r with
+  | error e =>
+    ssimp [absRn, Except.map]
+    refine Sim.leaf ?_ trivial
+    simp only [absRn, Except.map]
+  | ok ds =>
+    have hfl : (absW g2).files = g2.files.map dataOf := rfl
+    cases hl : g2.files.getLast? with
+    | none =>
+      ssimp [absRn, Except.map, hfl, Rs.last, hl, getLastOpt_map, Option.map_none]
+      exact Sim.panic _ _
+    | some f =>
+      ssimp [absRn, Except.map, hfl, Rs.last, hl, getLastOpt_map, Option.map_some]
+      refine Sim.leaf ?_ trivial
+      simp only [absRn, absW, Except.map, setLast_map, dataOf]
+
+
+/-! ### `add_directory` -/
+
+open Rs in
+theorem S.pure_bind_s {σ α β} (a : α) (f : α → Rs.S σ β) : ((pure a : Rs.S σ α) >>= f) = f a := by
+  show Rs.S.ofM (Rs.S.toM (pure a : Rs.S σ α) >>= _) = f a
+  simp only [S.toM_pure, pure_bind]
+
+theorem sim_add_directory (ext : Rs.S.Ext) (g : Gen.ZipWriter) (name : Bytes) (o : Gen.FileOptions)
+    (hf : ∀ f, g.files.getLast? = some f →
+      f.extra_field.length ≤ 9223372036854775807 ∧
+      f.data_start.toNat + f.extra_field.length < 18446744073709551616 ∧
+      f.header_start.toNat + 34 + f.file_name.length < 18446744073709551616)
+    (hname : name.length + 1 < 18446744073709551616)
+    (htime : (Tie.DateTime.toModel o.last_modified_time).datepart ≠ none) :
+    Sim absR (fun _ => True) (Rs.S.run (Gen.ZipWriter.add_directory ext g name o))
+      (addDirectory ext.toWExt name (optOf o) (absW g)) := by
+  have key : ∀ (o' : Gen.FileOptions) (name' : Bytes), o'.last_modified_time = o.last_modified_time →
+      name'.length < 18446744073709551616 →
+      Sim absR (fun _ => True)
+        (Rs.S.run (do
+          let (t3, t4) ← Gen.ZipWriter.start_entry ext g name' o' none
+          pure ((), { t4 with writing_to_file := false })))
+        (do
+          let (r, s) ← startEntry ext.toWExt name' (optOf o') none (absW g)
+          match r with
+          | .error e => pure (.error e, s)
+          | .ok () => pure (.ok (), { s with writingToFile := false })) := by
+    intro o' name' ht hn'
+    ssimp []
+    rw [toM_bind_run (Gen.ZipWriter.start_entry ext g name' o' none)]
+    refine Sim.bind (sim_start_entry ext g name' o' none hf hn' (by rw [ht]; exact htime)) ?_
+    intro p _
+    obtain ⟨r, g2⟩ := p
+    cases r with
+    | error e =>
+      ssimp [absR]
+      refine Sim.leaf ?_ trivial
+      simp only [absR]
+    | ok u =>
+      ssimp [absR]
+      refine Sim.leaf ?_ trivial
+      simp only [absR, absW]
+  -- the options and the name, on both sides
+  have hopt : ∀ perm : UInt32, o.permissions.getD 0o755 = perm →
+      optOf { o with permissions := some (perm ||| 0o40000), compression_method := .Stored } =
+        { withFilePerm (optOf o) 0o755 0o40000 with method := .stored } := by
+    intro perm h
+    simp only [optOf, withFilePerm, h]
+    rfl
+  have hfin : ∀ (perm : UInt32), o.permissions.getD 0o755 = perm →
+      Sim absR (fun _ => True)
+        (Rs.S.run (do
+          let t2 ← (match name.getLast? with
+            | some 0x2f | some 0x5c => (pure name : Rs.S Gen.ZipWriter Bytes)
+            | _ => pure (name ++ [0x2f]))
+          let (t3, t4) ← Gen.ZipWriter.start_entry ext g t2
+            { o with permissions := some (perm ||| 0o40000), compression_method := .Stored } none
+          pure ((), { t4 with writing_to_file := false })))
+        (addDirectory ext.toWExt name (optOf o) (absW g)) := by
+    intro perm hperm
+    have ho := hopt perm hperm
+    unfold addDirectory
+    split
+    · next h =>
+      have := key { o with permissions := some (perm ||| 0o40000), compression_method := .Stored } name rfl (by omega)
+      rw [ho] at this
+      simp only [S.pure_bind_s, h]
+      exact this
+    · next h =>
+      have := key { o with permissions := some (perm ||| 0o40000), compression_method := .Stored } name rfl (by omega)
+      rw [ho] at this
+      simp only [S.pure_bind_s, h]
+      exact this
+    · next h1 h2 =>
+      have := key { o with permissions := some (perm ||| 0o40000), compression_method := .Stored } (name ++ [0x2f]) rfl
+        (by simp only [List.length_append, List.length_cons, List.length_nil]; omega)
+      rw [ho] at this
+      split
+      · next h => exact absurd h (h1)
+      · next h => exact absurd h (h2)
+      · simp only [S.pure_bind_s]
+        exact this
+  unfold Gen.ZipWriter.add_directory
+  cases hp : o.permissions with
+  | none =>
+    have := hfin 0o755 (by rw [hp]; rfl)
+    simp only [hp, Rs.lastByte, Option.isNone, ↓reduceIte, S.lift_some_bind]
+    exact this
+  | some perm =>
+    have := hfin perm (by rw [hp]; rfl)
+    simp only [hp, Rs.lastByte, Option.isNone, ↓reduceIte, S.lift_some_bind, Bool.false_eq_true]
+    exact this
+
+
+/-! ### `self.write_all(..)`, `add_symlink` -/
+
+/-- an equation up to panic sites as a simulation; the postcondition: the abstracted value is one the
+right-hand side can return -/
+theorem Sim.of_erase {α α'} {φ : α → α'} {X : M α} {Y : M α'} (h : erase (φ <$> X) = erase Y) :
+    Sim φ (fun a => ∃ fa d d', Y fa d = (.ok (φ a), d')) X Y := by
+  intro fa d
+  right
+  refine ⟨by rw [h], ?_⟩
+  intro a d' he
+  refine ⟨fa, d, d', ?_⟩
+  have h2 := congrFun (congrFun h fa) d
+  simp only [erase, map_apply, he] at h2
+  rcases hy : Y fa d with ⟨o, dy⟩
+  rw [hy] at h2
+  simp only [Prod.mk.injEq] at h2
+  obtain ⟨h3, h4⟩ := h2
+  subst h4
+  cases o with
+  | ok b => simp only [eraseOut, Out.ok.injEq] at h3; rw [h3]
+  | err e => simp only [eraseOut] at h3; cases h3
+  | panic s => simp only [eraseOut] at h3; cases h3
+
+/-- `self.write_all(buf)` (std's loop over the object's own `write`) is the model's `writeData` -/
+theorem sim_write_all (ext : Rs.S.Ext) (g : Gen.ZipWriter) (buf : Bytes)
+    (hlen : buf.length < 9223372036854775808)
+    (hbytes : g.stats.bytes_written.toNat + buf.length < 18446744073709551616)
+    (hinv : g.writing_to_file = true → g.files ≠ [])
+    (hacc : ∀ b, ext.accept b = b.length) :
+    Sim absR (fun _ => True)
+      (Rs.S.run (Rs.S.write_all (Gen.ZipWriter.write ext) (buf.length + 1) g buf))
+      (writeData buf (absW g)) := by
+  cases buf with
+  | nil =>
+    unfold Rs.S.write_all writeData
+    ssimp [List.isEmpty_nil]
+    refine Sim.leaf ?_ trivial
+    simp only [absR]
+  | cons b bs =>
+    have tw := tie_write ext g (b :: bs) (by simp) hlen hbytes hinv hacc
+    have hs := Sim.of_erase tw
+    have hround : writeData (b :: bs) (absW g) =
+        (((fun r : Except ZErr Unit × WState => (r.1.map fun _ => Rs.len (b :: bs), r.2)) <$> writeData (b :: bs) (absW g)) >>=
+          fun q => pure (q.1.map (fun _ => ()), q.2)) := by
+      simp only [map_eq_pure_bind, bind_assoc, pure_bind]
+      conv => lhs; rw [← bind_pure (writeData (b :: bs) (absW g))]
+      refine bind_congr fun r => ?_
+      obtain ⟨r1, s1⟩ := r
+      cases r1 <;> rfl
+    unfold Rs.S.write_all
+    ssimp [List.isEmpty_cons]
+    rw [toM_bind_run (Gen.ZipWriter.write ext g (b :: bs)), hround]
+    refine Sim.bind hs ?_
+    intro a ha
+    obtain ⟨r, g'⟩ := a
+    cases r with
+    | error e =>
+      ssimp [absR]
+      refine Sim.leaf ?_ trivial
+      simp only [absR, Except.map]
+    | ok n =>
+      -- the count is the whole buffer
+      have hn : n = Rs.len (b :: bs) := by
+        obtain ⟨fa, d, d', hy⟩ := ha
+        rw [map_apply] at hy
+        rcases hw : writeData (b :: bs) (absW g) fa d with ⟨o, dw⟩
+        rw [hw] at hy
+        cases o with
+        | ok q =>
+          simp only [Prod.mk.injEq, Out.ok.injEq, absR] at hy
+          obtain ⟨⟨h1, _⟩, _⟩ := hy
+          obtain ⟨q1, q2⟩ := q
+          cases q1 with
+          | ok u => simp only [Except.map, Except.ok.injEq] at h1; exact h1.symm
+          | error e => simp only [Except.map] at h1; cases h1
+        | err e => simp only [Prod.mk.injEq] at hy; cases hy.1
+        | panic s => simp only [Prod.mk.injEq] at hy; cases hy.1
+      subst hn
+      have hl : (Rs.len (b :: bs)).toNat = bs.length + 1 := by
+        simp only [Rs.len, UInt64.toNat_ofNat', List.length_cons]
+        simp only [List.length_cons] at hlen
+        omega
+      have hne : (Rs.len (b :: bs) == 0) = false := by
+        rw [beq_eq_false_iff_ne, ne_eq, ← UInt64.toNat_inj, hl]
+        have e0 : (0 : UInt64).toNat = 0 := by decide
+        rw [e0]; omega
+      have hsl : Rs.sliceFrom (b :: bs) (Rs.len (b :: bs)) = some [] := by
+        simp only [Rs.sliceFrom, hl, List.length_cons, Nat.le_refl, ↓reduceIte, List.drop_succ_cons, List.drop_length]
+      ssimp [absR, hne, hsl]
+      cases bs with
+      | nil =>
+        unfold Rs.S.write_all
+        ssimp [List.isEmpty_nil, List.length_nil]
+        refine Sim.leaf ?_ trivial
+        simp only [absR, Except.map]
+      | cons c cs =>
+        unfold Rs.S.write_all
+        ssimp [List.isEmpty_nil, List.length_cons]
+        refine Sim.leaf ?_ trivial
+        simp only [absR, Except.map]
+
+theorem sim_add_symlink (ext : Rs.S.Ext) (g : Gen.ZipWriter) (name target : Bytes) (o : Gen.FileOptions)
+    (hf : ∀ f, g.files.getLast? = some f →
+      f.extra_field.length ≤ 9223372036854775807 ∧
+      f.data_start.toNat + f.extra_field.length < 18446744073709551616 ∧
+      f.header_start.toNat + 34 + f.file_name.length < 18446744073709551616)
+    (hname : name.length < 18446744073709551616)
+    (htarget : target.length < 9223372036854775808)
+    (htime : (Tie.DateTime.toModel o.last_modified_time).datepart ≠ none)
+    (hacc : ∀ b, ext.accept b = b.length) :
+    Sim absR (fun _ => True) (Rs.S.run (Gen.ZipWriter.add_symlink ext g name target o))
+      (addSymlink ext.toWExt name target (optOf o) (absW g)) := by
+  have key : ∀ (o' : Gen.FileOptions), o'.last_modified_time = o.last_modified_time →
+      optOf o' = { withFilePerm (optOf o) 0o777 0o120000 with method := .stored } →
+      Sim absR (fun _ => True)
+        (Rs.S.run (do
+          let (t2, t3) ← Gen.ZipWriter.start_entry ext g name o' none
+          let (t4, t5) ← Rs.S.write_all (Gen.ZipWriter.write ext) (target.length + 1)
+            { t3 with writing_to_file := true } target
+          pure ((), { t5 with writing_to_file := false })))
+        (addSymlink ext.toWExt name target (optOf o) (absW g)) := by
+    intro o' ht ho
+    unfold addSymlink
+    rw [← ho]
+    ssimp []
+    rw [toM_bind_run (Gen.ZipWriter.start_entry ext g name o' none)]
+    refine Sim.bind (sim_start_entry ext g name o' none hf hname (by rw [ht]; exact htime)) ?_
+    intro p hp
+    obtain ⟨r, g2⟩ := p
+    cases r with
+    | error e =>
+      ssimp [absR]
+      refine Sim.leaf ?_ trivial
+      simp only [absR]
+    | ok u =>
+      obtain ⟨hne, hb0⟩ := hp rfl
+      ssimp [absR]
+      rw [toM_bind_run (Rs.S.write_all (Gen.ZipWriter.write ext) (target.length + 1)
+        { g2 with writing_to_file := true } target)]
+      have hw := sim_write_all ext { g2 with writing_to_file := true } target htarget
+        (by show g2.stats.bytes_written.toNat + target.length < 18446744073709551616
+            rw [hb0]
+            have e0 : (0 : UInt64).toNat = 0 := by decide
+            rw [e0]; omega)
+        (fun _ => hne) hacc
+      refine Sim.bind hw ?_
+      intro q _
+      obtain ⟨r2, g3⟩ := q
+      cases r2 with
+      | error e =>
+        ssimp [absR]
+        refine Sim.leaf ?_ trivial
+        simp only [absR]
+      | ok u2 =>
+        ssimp [absR]
+        refine Sim.leaf ?_ trivial
+        simp only [absR, absW]
+  have hopt : ∀ perm : UInt32, o.permissions.getD 0o777 = perm →
+      optOf { o with permissions := some (perm ||| 0o120000), compression_method := .Stored } =
+        { withFilePerm (optOf o) 0o777 0o120000 with method := .stored } := by
+    intro perm h
+    simp only [optOf, withFilePerm, h]
+    rfl
+  unfold Gen.ZipWriter.add_symlink
+  cases hp : o.permissions with
+  | none =>
+    have := key { o with permissions := some (0o777 ||| 0o120000), compression_method := .Stored } rfl (hopt _ (by rw [hp]; rfl))
+    simp only [hp, Option.isNone, ↓reduceIte, S.lift_some_bind]
+    exact this
+  | some perm =>
+    have := key { o with permissions := some (perm ||| 0o120000), compression_method := .Stored } rfl (hopt _ (by rw [hp]; rfl))
+    simp only [hp, Option.isNone, ↓reduceIte, S.lift_some_bind, Bool.false_eq_true]
+    exact this
 
 
 end ZipVerif.Tie.WriterSM
